@@ -567,8 +567,7 @@ Proof.
     + apply orb_false_iff in G as [G1 G2]. apply Z.ltb_ge in G1, G2. inv C.
       match type of A with apply_epi _ ?st _ = _ => assert (W1 : WInv st) by (apply inv_send; auto) end.
       apply epi_wire in A as [[X Y]|[-> ->]]; auto; unfold pool, ids in *; simpl in *; rewrite map_app in *; simpl in *.
-      * split; [eapply incl_tran; [exact Y|]|eapply wire_in_mono; [|exact X]]; rewrite app_assoc; apply incl_app;
-          try (apply incl_appl, incl_appr, incl_refl); apply incl_appr, incl_refl.
+      * split; [eapply incl_tran; [exact Y|]|eapply wire_in_mono; [|exact X]]; rewrite <- app_assoc; apply incl_appr, incl_refl.
       * split; [rewrite app_assoc; apply incl_refl|apply wire_in_nil].
   - destruct (NS ltac:(intros ? X; discriminate X)) as (s1 & o1 & ep & o2 & C & A & ->). cbn [core] in C.
     inv C. simpl in A. inv A. split; [apply incl_appl, incl_refl|apply wire_in_outcomes; repeat constructor].
@@ -592,3 +591,246 @@ Proof.
     + unfold pool. rewrite P, Q. simpl. intros ? [].
     + apply wire_in_quiet. eapply Forall_impl; [|exact F]. intros [] X; simpl in *; auto; destruct X.
 Qed.
+
+(* ------------------------------------------------------------------ cancellation *)
+(* a send the producer no longer holds *)
+Definition absent (s : state) (sid : Z) : Prop := 0 <= sid < nsend s /\ ~ In sid (pool s).
+
+Lemma absent_step : forall c s e s' out sid, Inv s -> absent s sid -> step c s e = (s', out) ->
+  absent s' sid /\ forall o, In o out -> ~ In sid (wire_sids o).
+Proof.
+  intros c s e s' out sid I [B N] H. destruct (step_pool _ _ _ _ _ I H) as [P Wi].
+  destruct (step_inv _ _ _ _ _ I H) as [_ _ NS].
+  assert (X : ~ In sid (pool s ++ new_sids s e)).
+  { intros X. apply in_app_or in X as [X|X]; auto. destruct e; simpl in X; try tauto; destruct X as [X|[]]; lia. }
+  split; [split; [lia|intros Y; apply X, P, Y]|]. intros o Ho Y. apply X. eapply Wi; eauto.
+Qed.
+
+Theorem never_sent_run : forall c evs s s' tr sid, Inv s -> absent s sid -> run c s evs = (s', tr) ->
+  forall e out o, In (e, out) tr -> In o out -> ~ In sid (wire_sids o).
+Proof.
+  induction evs as [|e r IH]; simpl; intros s s' tr sid I A H e0 out o Ht Ho.
+  - inv H. destruct Ht.
+  - destruct (step c s e) as [s1 o1] eqn:E. destruct (run c s1 r) as [s2 t2] eqn:E2. inv H.
+    destruct (absent_step _ _ _ _ _ _ I A E) as [A1 W1].
+    destruct Ht as [Ht|Ht]; [inv Ht; auto|].
+    eapply IH; [eapply step_inv; eauto|exact A1|exact E2|exact Ht|exact Ho].
+Qed.
+
+Theorem cancel_queued : forall c s sid s' out, Inv s -> In sid (ids (queue s)) -> step c s (ECancel sid) = (s', out) ->
+  exists a x b, queue s = a ++ x :: b /\ s_id x = sid /\ queue s' = a ++ b /\
+                wcnt s' = wcnt s - s_cnt x /\ wbytes s' = wbytes s - s_bytes x /\
+                out = [OOutcome sid (OFail K_CANCEL 0)] /\ ph s' = ph s /\ absent s' sid.
+Proof.
+  intros c s sid s' out I Q H. pose proof I as [W L]. pose proof W as [IB PW ID ST].
+  unfold step in H. cbn [core] in H. destruct (cancel_send s sid) as [s2 o3] eqn:E. simpl in H. inv H. rewrite app_nil_r.
+  pose proof (i_qout _ _ IB _ Q) as O. apply zmem_In in O.
+  apply cancel_send_spec in E as (_ & P & _ & _ & Ns & _ & _ & _ & _ & _ & _ & _ & [(_ & _ & M)|(_ & _ & [(_ & _ & _ & Rm & _)|(x & Rm & Wc & Wb & ->)])]).
+  - congruence.
+  - apply remove_send_none in Rm. tauto.
+  - apply remove_send_spec in Rm as (a & b & Qa & Qb & Sx & _). exists a, x, b. repeat split; auto.
+    + pose proof (i_qbound _ _ IB) as F. rewrite Forall_forall in F. apply F in Q. unfold id_ok in Q. lia.
+    + pose proof (i_qbound _ _ IB) as F. rewrite Forall_forall in F. apply F in Q. unfold id_ok in Q. lia.
+    + unfold pool. rewrite P, Qb. intros X. apply in_app_or in X as [X|X].
+      * pose proof (i_blt _ _ IB _ _ X Q). lia.
+      * pose proof (i_qsorted _ _ IB) as S. rewrite Qa in S. unfold ids in *. rewrite map_app in *. simpl in S.
+        apply sorted_lt_nodup in S. apply NoDup_remove_2 in S. rewrite Sx in S. auto.
+Qed.
+
+Theorem cancel_detached : forall c s sid s' out, Inv s -> In sid (outstanding s) -> ~ In sid (ids (queue s)) ->
+  step c s (ECancel sid) = (s', out) ->
+  s' = set_outstanding s (zremove sid (outstanding s)) /\
+  out = [OOutcome sid (OFail K_CANCEL (match ph s with Idle => 0 | _ => 1 end))].
+Proof.
+  intros c s sid s' out I O Q H. unfold step in H. cbn [core] in H. unfold cancel_send in H.
+  apply zmem_In in O. rewrite O in H. simpl in H.
+  destruct (remove_send sid (queue s)) as [[x q]|] eqn:Rm.
+  - apply remove_send_spec in Rm as (a & b & Qa & _ & Sx & _). exfalso. apply Q. rewrite Qa. unfold ids. rewrite map_app.
+    apply in_or_app; right; left; auto.
+  - inv H. auto.
+Qed.
+
+(* a send leaves the queue only by being dispatched or by an outcome (its own cancel(), or stop()) *)
+Lemma epi_queue : forall c s1 ep s2 o2, apply_epi c s1 ep = (s2, o2) ->
+  queue s2 = queue s1 \/ In (ODispatch (ids (queue s1))) o2.
+Proof.
+  intros c s1 ep s2 o2 A.
+  assert (T : forall s s' o, try_send_batch c s = (s', o) -> queue s' = queue s \/ In (ODispatch (ids (queue s))) o).
+  { intros s s' o H. apply try_send_batch_spec in H as [[_ D]|(_ & -> & _)]; auto.
+    apply dispatch_spec in D as (_ & _ & _ & _ & _ & _ & rest & -> & _). right; left; reflexivity. }
+  assert (Ck : forall s s' o, check_send_batch c s = (s', o) -> queue s' = queue s \/ In (ODispatch (ids (queue s))) o).
+  { unfold check_send_batch; intros s s' o H. destruct (threshold c s); [eauto|inv H; auto]. }
+  destruct ep; simpl in A; eauto.
+  - inv A; auto.
+  - unfold finish, finish0 in A. destruct (check_send_batch c _) as [s4 o4] eqn:E. inv A.
+    apply Ck in E as [E|E]; simpl in E; auto. right; right; auto.
+Qed.
+
+Theorem queue_exit : forall c s e s' out sid, Inv s -> step c s e = (s', out) ->
+  In sid (ids (queue s)) -> ~ In sid (ids (queue s')) ->
+  (exists sids, In (ODispatch sids) out /\ In sid sids) \/ In sid (oc out).
+Proof.
+  intros c s e s' out sid I H Q Q'. pose proof I as [W L]. pose proof W as [IB PW ID ST].
+  assert (NS : (forall cv, e <> EStop cv) -> exists s1 o1 ep o2, core c s e = (s1, o1, ep) /\ apply_epi c s1 ep = (s', o2) /\ out = o1 ++ o2)
+    by (intros; eapply step_nonstop; eauto).
+  assert (G : forall s1 o1 ep o2, apply_epi c s1 ep = (s', o2) -> out = o1 ++ o2 -> In sid (ids (queue s1)) ->
+              exists sids, In (ODispatch sids) out /\ In sid sids).
+  { intros s1 o1 ep o2 A -> Q1. apply epi_queue in A as [A|A]; [rewrite A in Q'; tauto|].
+    eexists; split; [apply in_or_app; right; exact A|exact Q1]. }
+  assert (BE : batch_event e = true -> (exists sids, In (ODispatch sids) out /\ In sid sids) \/ In sid (oc out)).
+  { intros B. destruct (NS ltac:(intros ? ->; discriminate)) as (s1 & o1 & ep & o2 & C & A & E).
+    left. eapply G; eauto.
+    apply core_batch in C as [(-> & -> & ->)|(NI & done & BS & ->)]; auto;
+      try apply (i_onodup _ _ IB); try apply (i_bnodup _ _ IB).
+    destruct (bs_keeps _ _ _ _ _ BS) as [K1 _ _ _ _ _]. rewrite K1; auto. }
+  destruct e; try (apply BE; reflexivity).
+  - destruct (NS ltac:(intros ? X; discriminate X)) as (s1 & o1 & ep & o2 & C & A & E). cbn [core] in C. left.
+    eapply G; eauto. destruct ((cnt <? 1) || (bytes <? 0)); inv C; simpl; auto.
+    unfold ids. rewrite map_app. apply in_or_app; auto.
+  - destruct (NS ltac:(intros ? X; discriminate X)) as (s1 & o1 & ep & o2 & C & A & E). cbn [core] in C. left.
+    eapply G; eauto. inv C; auto.
+  - destruct (NS ltac:(intros ? X; discriminate X)) as (s1 & o1 & ep & o2 & C & A & E). cbn [core] in C.
+    destruct (cancel_send s sid0) as [s2 o3] eqn:Ec. inv C. simpl in A. inv A. rewrite app_nil_r.
+    apply cancel_send_spec in Ec as (_ & _ & _ & _ & _ & _ & _ & _ & _ & _ & _ & _ & [(-> & _)|(_ & _ & [(Qq & _)|(x & Rm & _ & _ & ->)])]).
+    + tauto.
+    + rewrite Qq in Q'; tauto.
+    + right. apply remove_send_spec in Rm as (a & b & Qa & Qb & Sx & _). simpl. left.
+      rewrite Qa in Q. rewrite Qb in Q'. unfold ids in *. rewrite map_app in *. simpl in Q.
+      apply in_app_or in Q as [Q|[Q|Q]]; [exfalso; apply Q'; apply in_or_app; auto|congruence|exfalso; apply Q'; apply in_or_app; auto].
+  - destruct (NS ltac:(intros ? X; discriminate X)) as (s1 & o1 & ep & o2 & C & A & E). cbn [core] in C. left.
+    eapply G; eauto. inv C; auto.
+  - destruct (NS ltac:(intros ? X; discriminate X)) as (s1 & o1 & ep & o2 & C & A & E). cbn [core] in C. left.
+    eapply G; eauto. inv C; auto.
+  - destruct (NS ltac:(intros ? X; discriminate X)) as (s1 & o1 & ep & o2 & C & A & E). cbn [core] in C. left.
+    eapply G; eauto. inv C; auto.
+  - right. apply stop_step_spec in H; auto. destruct H as [_ P _ _ _].
+    eapply Permutation_in; [exact P|]. apply (i_qout _ _ IB); auto.
+Qed.
+
+(* ------------------------------------------------------------------ after stop() *)
+Theorem after_stop : forall c s e s' out, Inv s -> stopping s = true -> step c s e = (s', out) ->
+  stopping s' = true /\ Forall stop_out out.
+Proof.
+  intros c s e s' out I St H. pose proof I as [W L]. pose proof W as [IB PW ID ST].
+  assert (NS : (forall cv, e <> EStop cv) -> exists s1 o1 ep o2, core c s e = (s1, o1, ep) /\ apply_epi c s1 ep = (s', o2) /\ out = o1 ++ o2)
+    by (intros; eapply step_nonstop; eauto).
+  assert (BE : batch_event e = true -> stopping s' = true /\ Forall stop_out out).
+  { intros B. destruct (NS ltac:(intros ? ->; discriminate)) as (s1 & o1 & ep & o2 & C & A & ->).
+    apply core_batch in C as [(-> & -> & ->)|(NI & _)]; auto;
+      try apply (i_onodup _ _ IB); try apply (i_bnodup _ _ IB).
+    - simpl in A. inv A. split; auto. constructor.
+    - exfalso; auto. }
+  destruct e; try (apply BE; reflexivity).
+  - destruct (NS ltac:(intros ? X; discriminate X)) as (s1 & o1 & ep & o2 & C & A & ->). cbn [core] in C.
+    destruct ((cnt <? 1) || (bytes <? 0)); inv C; simpl in A.
+    + inv A. split; auto. repeat constructor.
+    + match type of A with check_send_batch _ ?st = _ => destruct (stopping_no_dispatch c st St) as [_ X] end.
+      rewrite X in A. inv A. split; simpl; [auto|try constructor; auto].
+  - destruct (NS ltac:(intros ? X; discriminate X)) as (s1 & o1 & ep & o2 & C & A & ->). cbn [core] in C.
+    inv C. simpl in A. inv A. split; auto. repeat constructor.
+  - destruct (NS ltac:(intros ? X; discriminate X)) as (s1 & o1 & ep & o2 & C & A & ->). cbn [core] in C.
+    destruct (cancel_send s sid) as [s2 o3] eqn:Ec. inv C. simpl in A. inv A. rewrite app_nil_r.
+    apply cancel_send_spec in Ec as (OO & _ & S2 & _). split; [congruence|apply outcomes_stop_out; auto].
+  - destruct (NS ltac:(intros ? X; discriminate X)) as (s1 & o1 & ep & o2 & C & A & ->). cbn [core] in C.
+    inv C. rewrite (L St) in A. simpl in A. inv A. split; simpl; [auto|try constructor; auto].
+  - destruct (NS ltac:(intros ? X; discriminate X)) as (s1 & o1 & ep & o2 & C & A & ->). cbn [core] in C.
+    inv C. simpl in A. inv A. split; simpl; [auto|try constructor; auto].
+  - destruct (NS ltac:(intros ? X; discriminate X)) as (s1 & o1 & ep & o2 & C & A & ->). cbn [core] in C.
+    inv C. simpl in A. inv A. split; simpl; [auto|try constructor; auto].
+  - apply stop_step_spec in H; auto. destruct H as [_ _ (X & _) _ F]. split; auto.
+Qed.
+
+Theorem after_stop_run : forall c evs s s' tr, Inv s -> stopping s = true -> run c s evs = (s', tr) ->
+  stopping s' = true /\ forall e out, In (e, out) tr -> Forall stop_out out.
+Proof.
+  induction evs as [|e r IH]; simpl; intros s s' tr I St H.
+  - inv H. split; auto. intros ? ? [].
+  - destruct (step c s e) as [s1 o1] eqn:E. destruct (run c s1 r) as [s2 t2] eqn:E2. inv H.
+    destruct (after_stop _ _ _ _ _ I St E) as [S1 F1].
+    destruct (IH _ _ _ (so_inv _ _ _ _ (step_inv _ _ _ _ _ I E)) S1 E2) as [S2 F2].
+    split; auto. intros e0 out [X|X]; [inv X; auto|eauto].
+Qed.
+
+(* ------------------------------------------------------------------ stop(): every outcome is a cancellation
+   (when the client's Deferred, being cancelled, delivers nothing of its own: cv = None) *)
+Definition cancel_outcome (ou : output) : Prop :=
+  match ou with OOutcome _ o => o = OFail K_CANCEL 0 \/ o = OFail K_TIDCANCEL 0 | _ => True end.
+
+Lemma deliver_cancel_outcome : forall l s s' out, deliver s l (OFail K_TIDCANCEL 0) = (s', out) -> Forall cancel_outcome out.
+Proof.
+  induction l as [|x r IH]; simpl; intros s s' out H; [inv H; constructor|].
+  destruct (zmem (s_id x) (outstanding s)); [|eauto].
+  destruct (deliver _ r _) as [s1 o1] eqn:E. inv H. constructor; [right; reflexivity|eauto].
+Qed.
+
+Lemma lk_outs_cancel_outcome : forall o, lk_outs o -> Forall cancel_outcome o.
+Proof. intros o H; eapply Forall_impl; [|exact H]. intros [] X; simpl in *; auto; discriminate. Qed.
+
+Lemma cancel_all_idle_outcomes : forall ids0 s s1 o1, ph s = Idle -> cancel_all s ids0 = (s1, o1) -> Forall cancel_outcome o1.
+Proof.
+  induction ids0 as [|i r IH]; simpl; intros s s1 o1 P H; [inv H; constructor|].
+  destruct (cancel_send s i) as [s2 o2] eqn:E. destruct (cancel_all s2 r) as [s3 o3] eqn:E3. inv H.
+  apply cancel_send_spec in E as (_ & P2 & _ & _ & _ & _ & _ & _ & _ & _ & _ & _ & [(_ & -> & _)|(_ & _ & [(_ & _ & _ & _ & ->)|(x & _ & _ & _ & ->)])]);
+    simpl; try constructor; try (eapply IH; [|exact E3]; congruence).
+  - rewrite P. left; reflexivity.
+  - left; reflexivity.
+Qed.
+
+Theorem stop_cancels : forall c s s' out, Inv s -> step c s (EStop None) = (s', out) -> Forall cancel_outcome out.
+Proof.
+  intros c s s' out I H. pose proof I as [W L]. pose proof W as [IB PW ID ST].
+  pose proof (stop_step_spec _ _ _ _ _ I H) as [_ _ _ _ _].
+  unfold step in H. set (s0 := set_flags s true (looper s)) in *.
+  destruct (cancel_batch c s0 None) as [[s1 o1] done] eqn:E.
+  assert (Q1 : Forall cancel_outcome o1).
+  { unfold cancel_batch in E. destruct (ph s0) eqn:P.
+    - inv E; constructor.
+    - destruct (map_lookups _ s0 reqs ls) as [[s2 o2] ls2] eqn:E1.
+      pose proof (cancel_lookups_out _ _ _ _ _ _ _ (eq_refl : stopping s0 = true) E1) as [_ St2].
+      apply map_lookups_xl in E1 as (_ & A2 & _).
+      2:{ intros st x l st' o' l' Hf. destruct l; [discriminate| |].
+          - inv Hf. eapply lookup_loaded_xl; eauto.
+          - inv Hf. xl_done. }
+      unfold lookups_progress in E. destruct (all_done ls2).
+      + rewrite send_requests_stopping in E; auto. inv E. rewrite app_nil_r. apply lk_outs_cancel_outcome; auto.
+      + inv E. rewrite app_nil_r. apply lk_outs_cancel_outcome; auto.
+    - unfold version_failed in E. destruct (deliver s0 reqs _) eqn:D; inv E. eapply deliver_cancel_outcome; eauto.
+    - unfold handle_result in E. destruct (deliver s0 (all_sends pls) _) eqn:D; inv E. eapply deliver_cancel_outcome; eauto.
+    - destruct (deliver s0 (all_sends pls) _) eqn:D; inv E. constructor; simpl; auto. eapply deliver_cancel_outcome; eauto. }
+  assert (K : stopping s1 = true).
+  { destruct (phase_eq_idle (ph s)) as [Pi|Pi].
+    - unfold cancel_batch in E. replace (ph s0) with Idle in E by (symmetry; exact Pi). inv E. reflexivity.
+    - apply cancel_batch_ok in E. destruct E as [[_ _ _ K _ _] _ _]. rewrite K. reflexivity. }
+  assert (Pd : done = false -> ph s1 = Idle).
+  { intros ->. destruct (phase_eq_idle (ph s)) as [Pi|Pi].
+    - unfold cancel_batch in E. replace (ph s0) with Idle in E by (symmetry; exact Pi). inv E. exact Pi.
+    - pose proof (cancel_batch_done c s0 None _ _ _ (eq_refl : stopping s0 = true) PW Pi E). discriminate. }
+  assert (M : exists s2 o2, apply_epi c s1 (if done then Fin else NoEpi) = (s2, o2) /\ Forall cancel_outcome o2 /\ ph s2 = Idle).
+  { destruct done; simpl.
+    - unfold finish, finish0. destruct (stopping_no_dispatch c (set_retry (set_ph s1 Idle) 0 0 0) K) as [_ C]. rewrite C.
+      eexists; eexists; split; [reflexivity|]. split; [repeat constructor|reflexivity].
+    - eexists; eexists; split; [reflexivity|]. split; [constructor|auto]. }
+  destruct M as (s2 & o2 & A & Q2 & P2). unfold fin_if in H. rewrite A in H.
+  destruct (cancel_all _ _) as [s4 o4] eqn:E4. inv H.
+  apply cancel_all_idle_outcomes in E4; [|exact P2].
+  apply Forall_app; split; [exact Q1|]. apply Forall_app; split; [exact Q2|exact E4].
+Qed.
+
+(* ------------------------------------------------------------------ restatements used by Props/C19.v *)
+Theorem no_due_batch_waits : forall c s, reachable c s ->
+  queue s <> [] -> ph s = Idle -> stopping s = false -> threshold c s = false.
+Proof. intros c s R Q P St. apply (reachable_rest_ok c s R). apply can_dispatch_iff; auto. Qed.
+
+Theorem counters_exact : forall s, Inv s ->
+  wcnt s = zsum (map s_cnt (queue s)) /\ wbytes s = zsum (map s_bytes (queue s)) /\
+  Forall (fun x => 1 <= s_cnt x /\ 0 <= s_bytes x) (queue s).
+Proof. intros s [[IB _ _ _] _]. destruct IB; auto. Qed.
+
+Theorem inv_step : forall c s e s' out, Inv s -> step c s e = (s', out) -> Inv s'.
+Proof. intros c s e s' out I H. apply (so_inv _ _ _ _ (step_inv _ _ _ _ _ I H)). Qed.
+
+Theorem stop_all : forall c s cv s' out, Inv s -> step c s (EStop cv) = (s', out) ->
+  outstanding s' = [] /\ Permutation (outstanding s) (oc out) /\
+  stopping s' = true /\ looper s' = false /\ ph s' = Idle /\
+  queue s' = [] /\ wcnt s' = 0 /\ wbytes s' = 0 /\ Forall stop_out out.
+Proof. intros c s cv s' out I H. destruct (stop_step_spec _ _ _ _ _ I H) as [A B (C1 & C2 & C3) (D1 & D2 & D3) E]. repeat split; auto. Qed.
